@@ -65,6 +65,8 @@ type scfg struct {
 	SSA              bool        `json:"ssa"`
 	FieldPaths       []string    `json:"fieldPaths,omitempty"`
 	Related          []childSpec `json:"related,omitempty"`
+	// cc.spec.parentResource.ignoreStatusChanges
+	IgnoreStatusChanges bool `json:"ignoreStatusChanges,omitempty"`
 }
 
 var allChildKinds = []childSpec{
@@ -217,6 +219,10 @@ func (cfg scfg) compositeController(hookURL func(string) *string) *v1alpha1.Comp
 		ls := &metav1.LabelSelector{}
 		_ = runtime.DefaultUnstructuredConverter.FromUnstructured(cfg.ParentSelector, ls)
 		cc.Spec.ParentResource.LabelSelector = ls
+	}
+	if cfg.IgnoreStatusChanges {
+		t := true
+		cc.Spec.ParentResource.IgnoreStatusChanges = &t
 	}
 	if len(cfg.FieldPaths) > 0 {
 		cc.Spec.ParentResource.RevisionHistory = &v1alpha1.CompositeControllerRevisionHistory{FieldPaths: cfg.FieldPaths}
